@@ -38,6 +38,7 @@ func verifVFSIsLink(name string) bool
 func verifTask(name string, notification bool)
 func verifSched(explore bool)
 func verifMapOrder(explore bool)
+func verifMapReverse(on bool)
 func verifLockBusy(busy bool)
 func verifOnLock(f func())
 `
@@ -260,6 +261,10 @@ var intrinsics = map[string]extFn{
 		}
 		sort.Strings(names)
 		return strSliceVal(names)
+	},
+	"verifMapReverse": func(e *Engine, _ *frame, _ *ssa.Function, a []value) value {
+		e.permRev = e.truth(a[0])
+		return nil
 	},
 	"verifMapOrder": func(e *Engine, _ *frame, _ *ssa.Function, a []value) value {
 		e.permOff = !e.truth(a[0])
